@@ -140,3 +140,60 @@ class Injector:
                 os.remove(p)
             except OSError:
                 pass
+
+
+class PlanInjector(Injector):
+    """Fault plans with more than one failing call, faults that last, and faults other than OSError.
+
+    `plan` is a list of rules; a call fails when some live rule matches it:
+      kind   call name as logged ("mkstemp", "gzip.open(w)", "gzip.open(r)", "write", "read", "handle.close(w)",
+             "handle.close(r)", "os.close", "os.remove") or "*" for every call
+      by     "kind": `from` counts the calls of that name (0-based); "pos": `from` is the position in the whole call log
+      from   first matching call that fails
+      count  number of calls the rule makes fail (None: every matching call, until the rule heals)
+      heal   name of an event after which the rule is off (the harness reports events with `event(name)`; the C18 harness
+             reports "close" when the first close() has returned or raised); None: never heals
+      exc    "OSError" (default, errno EIO), "EOFError" (what gzip raises on a spill file that ends early) or "zlib.error"
+             (what gzip raises on a spill file with damaged contents)"""
+
+    def __init__(self, plan, err=errno.EIO):
+        Injector.__init__(self, fail_at=None, err=err)
+        self.plan = [dict(r) for r in plan]
+        self.hits = [0] * len(self.plan)
+        self.by_kind = {}
+        self.events = set()
+        self.fired_all = []      # (position, call, exception kind) of every injected failure
+        self._exc = "OSError"
+
+    def event(self, name):
+        self.events.add(name)
+
+    def _tick(self, name, after=None):
+        k = len(self.calls)
+        self.calls.append(name)
+        occ = self.by_kind.get(name, 0)
+        self.by_kind[name] = occ + 1
+        for idx, r in enumerate(self.plan):
+            if r.get("heal") is not None and r["heal"] in self.events:
+                continue
+            if r.get("kind", "*") not in ("*", name):
+                continue
+            if (k if r.get("by") == "pos" else occ) < r.get("from", 0):
+                continue
+            if r.get("count") is not None and self.hits[idx] >= r["count"]:
+                continue
+            self.hits[idx] += 1
+            self._exc = r.get("exc") or "OSError"
+            if self.fired is None:
+                self.fired = (k, name)
+            self.fired_all.append((k, name, self._exc))
+            return True
+        return False
+
+    def _raise(self, name):
+        if self._exc == "EOFError":
+            raise EOFError("Compressed file ended before the end-of-stream marker was reached (injected fault in %s)" % name)
+        if self._exc == "zlib.error":
+            import zlib
+            raise zlib.error("Error -3 while decompressing data: invalid block type (injected fault in %s)" % name)
+        raise OSError(self.err, "injected fault in %s" % name)
